@@ -501,10 +501,8 @@ theorem step_plain_ok {cfg : Cfg} (R : Repaired cfg) {st : St} (inv : SInv st) (
       · obtain ⟨ww, hw⟩ := heldW_live hh
         simp only [hh, if_true]
         obtain ⟨t', hc, C⟩ := closeT_ok R.closePurges R.dragForgottenOnClose inv.tinv hw
-        have inv1 := inv.setX_same w { getX st w with detached := true } rfl
-        have := inv1.of_closed (win := w) (ww := ww) (t' := t') (by simpa using hw) (by simpa using C)
         simp only [okR, liftT_ok hc, bind_ok, pure_ok]
-        exact ⟨_, _, rfl, this⟩
+        exact ⟨_, _, rfl, inv.of_closed hw C⟩
       · simp only [hh, Bool.false_eq_true, if_false, skipR, pure_ok]; exact ⟨_, _, rfl, inv⟩
     case restack c w =>
       by_cases hh : (usableW st w && isRestack c) = true
